@@ -1,5 +1,5 @@
 (* C11 — protfilter and parsing flags only filter; they never change what is framed. *)
-From PyUbx Require Import Base Bytes Reader Reader_generic Reader_file.
+From PyUbx Require Import Base Bytes Reader Reader_generic Reader_file Reader_any.
 Open Scope N_scope.
 
 Theorem C11_filter : forall (P : Type) (parse : N -> bytes -> result P) (nmea_hdr : N -> bool) c F s,
@@ -21,3 +21,26 @@ Theorem C11_parsing_off : forall (P : Type) (parse : N -> bytes -> result P) (nm
   Forall (fun it => snd it = None) (items (file_read_all parse nmea_hdr (withparsing c false) s)).
 Proof. exact @c11_parsing_off. Qed.
 Print Assumptions C11_parsing_off.
+
+(* THE SAME FOR EVERY STREAM IMPLEMENTATION whose read(n) never returns more than n bytes (file, socket wrapper, a
+   serial port with short reads while data follows, ...), any state type, any fuel *)
+Theorem C11_filter_any_stream : forall (S P : Type) (rd : nat -> S -> bytes * S) (rdl : S -> bytes * S)
+    (parse : N -> bytes -> result P) (nmea_hdr : N -> bool) c F fuel s,
+  (forall n s, (length (fst (rd n s)) <= n)%nat) ->
+  parse_protocol_only parse -> quitonerror c <> 2 ->
+  items (read_all rd rdl parse nmea_hdr (withpf c F) fuel s) =
+  filter (fun it => negb (N.land F (protocol nmea_hdr (fst it)) =? 0))
+         (items (read_all rd rdl parse nmea_hdr (withpf c 7) fuel s)).
+Proof. exact @c11_filter_any_stream. Qed.
+Print Assumptions C11_filter_any_stream.
+
+Theorem C11_parsing_off_any_stream : forall (S P : Type) (rd : nat -> S -> bytes * S) (rdl : S -> bytes * S)
+    (parse : N -> bytes -> result P) (nmea_hdr : N -> bool) c fuel s,
+  Forall (fun x => match fst x with
+                   | TFrame p raw => passes c p = true -> exists v, parse p raw = Ok v
+                   | _ => True end) (fst (trace rd rdl nmea_hdr fuel s)) ->
+  map fst (items (read_all rd rdl parse nmea_hdr (withparsing c false) fuel s)) =
+  map fst (items (read_all rd rdl parse nmea_hdr (withparsing c true) fuel s)) /\
+  Forall (fun it => snd it = None) (items (read_all rd rdl parse nmea_hdr (withparsing c false) fuel s)).
+Proof. exact @c11_parsing_off_any. Qed.
+Print Assumptions C11_parsing_off_any_stream.
